@@ -40,6 +40,10 @@ theorem take_drop_take (s : List α) (a n w : Nat) (h : a + n ≤ w) :
     (s.take (a + n)).drop a = ((s.take w).drop a).take n := by
   rw [List.take_drop, List.take_take]; congr 2; omega
 
+theorem slice_of_window (m : List α) (ri wi s e : Nat) (h : ri + e ≤ wi) :
+    (((m.take wi).drop ri).take e).drop s = (m.take (ri + e)).drop (ri + s) := by
+  rw [← take_drop_take m ri e wi h, List.drop_drop]
+
 theorem drop_take_append (s d : List α) (ri wi : Nat) (h1 : ri ≤ wi) (h2 : wi ≤ s.length) :
     (s.take wi ++ d).drop ri = (s.take wi).drop ri ++ d := by
   rw [List.drop_append_of_le_length (by simp; omega)]
